@@ -371,3 +371,15 @@ Proof.
       rewrite Ha'. cbn [negb snd]. destruct Qb. destruct (_ || _); cbn; split; assumption. }
     destruct (t_exit k exc (clear_log s)); cbn in *. destruct Q. split; [auto|split; [auto|discriminate]].
 Qed.
+
+Lemma ended_commit_raises : forall k s, k < length (txns s) -> active k s = false ->
+  exists e, step (TCommit k) s = Some (Raise e, clear_log s).
+Proof.
+  intros k s Hk Ha. unfold step. cbn [handle_of]. rewrite (proj2 (Nat.ltb_lt _ _) Hk). cbn [run_op].
+  destruct (t_commit_inactive k (clear_log s)) as [e ->]; [rewrite active_clear_log; auto|eauto].
+Qed.
+
+Lemma inactive_quiet : forall o k s, handle_of o = Some k -> active k s = false ->
+  (forall j, o <> TEnter j) ->
+  s_out (step_st o s) = [] /\ s_db (step_st o s) = s_db s.
+Proof. intros o k s H1 H2 H3. destruct (inactive_sends_nothing o k s H1 H2 H3) as (A & B & _). auto. Qed.
